@@ -48,7 +48,9 @@ BOUNDS = (
 OUTSIDE = (
     "identity with inline transfer, dictionary-encoded / zero-column batches, segment exhaustion, maybe_write_to_shm (all Arrow + POSIX shm); "
     "_serve_stream: producer streams (no input regions), headers, external-location inputs, output batches routed through shm (small outputs stay inline), "
-    "more than 2 (quick) / 3 (thorough) inputs per call; client StreamSession release policy; double release() by API users (the handle is not idempotent)"
+    "more than 2 (quick) / 3 (thorough) inputs per call; client StreamSession release policy; double release() by API users (the handle is not idempotent); "
+    "whether a region the receiver never read (an EXCEPTION log or a failing read came first) is handed back; which layer frees a region that was read but "
+    "does not decode (judged at the end of the receiving call); whether / how often a per-request attached segment is closed (only: not before its region is released)"
 )
 ASSUMPTIONS = [
     "int(<offset/length bytes>) := the peer's make_shm_pointer_batch wrote decimal ints: returns that int",
@@ -224,15 +226,22 @@ def _ptr_md(off: int, length: int) -> _MD:
     return _MD([(md.SHM_OFFSET_KEY, _Num(off)), (md.SHM_LENGTH_KEY, _Num(length))])
 
 
-def _accounting(off: int) -> bool:
-    """Every region handed out (read + decoded) is freed exactly once, after the last value copy; nothing else is freed."""
+def _accounting(off: int, region: bool = True) -> bool:
+    """Every region handed out (read + decoded) is freed exactly once, after the last value copy; nothing else is freed.
+
+    *region*: the peer did place a region at *off* (a pointer batch is in the stream and a segment is attached)."""
     reads = [e for e in _EV if e[0] == "read"]
     decoded = [e for e in _EV if e[0] == "decoded"]
     frees = [e for e in _EV if e[0] == "free"]
     if len(reads) > 1:
         return False
     if not decoded:
-        return len(frees) == 0
+        # the call ended before the region was consumed (an EXCEPTION log / a failing read came first).
+        # Whether the receiver then hands the region back (e.g. while draining) or leaves it to the
+        # peer is not what this property fixes: at most one free, and only of that region.
+        if not region:
+            return len(frees) == 0
+        return len(frees) <= 1 and all(f[1] == off for f in frees)
     if len(frees) != 1 or frees[0][1] != off or reads[0][1] != off:
         return False
     # not released while its values are still being read
@@ -252,6 +261,54 @@ def _reset() -> None:
 # ---------------------------------------------------------------------------
 
 
+import enum as _enum  # noqa: E402
+
+
+class _Colour(_enum.Enum):
+    """Result type whose wire value (a member NAME) can fail to deserialise: the real 'value_raises'."""
+
+    RED = "red"
+
+
+class _FailingReader:
+    """The real ValidatedReader with one environment fault: its k-th read (1-based, any kind) raises OSError
+    (a pipe that breaks mid-response).  Everything else is forwarded to the real reader."""
+
+    def __init__(self, inner: object, fail_at: int) -> None:
+        self._inner, self._fail_at, self._reads = inner, fail_at, 0
+
+    def _tick(self) -> None:
+        self._reads += 1
+        if self._reads == self._fail_at:
+            raise OSError("read failed")
+
+    def read_next_batch_with_custom_metadata(self) -> tuple:
+        self._tick()
+        return self._inner.read_next_batch_with_custom_metadata()  # type: ignore[attr-defined]
+
+    def read_next_batch(self) -> object:
+        self._tick()
+        return self._inner.read_next_batch()  # type: ignore[attr-defined]
+
+    def __getattr__(self, name: str) -> object:
+        return getattr(self._inner, name)
+
+
+class _SpySeg:
+    """The REAL segment behind a transparent proxy that only notes which regions the receiver read."""
+
+    def __init__(self, seg: object) -> None:
+        self._seg = seg
+        self.consumed: list = []
+
+    def read_buffer(self, offset: int, length: int) -> object:
+        self.consumed.append(offset)
+        return self._seg.read_buffer(offset, length)  # type: ignore[attr-defined]
+
+    def __getattr__(self, name: str) -> object:
+        return getattr(self._seg, name)
+
+
 def _real_infos() -> dict:
     from typing import Protocol
 
@@ -264,6 +321,10 @@ def _real_infos() -> dict:
 
         def void(self) -> None: ...
 
+        def colour(self) -> _Colour: ...
+
+        def maybe_colour(self) -> Optional[_Colour]: ...
+
     class Impl:
         def plain(self) -> int:
             return 1
@@ -272,6 +333,12 @@ def _real_infos() -> dict:
             return None
 
         def void(self) -> None:
+            return None
+
+        def colour(self) -> _Colour:
+            return _Colour.RED
+
+        def maybe_colour(self) -> Optional[_Colour]:
             return None
 
     return dict(RpcServer(Svc, Impl())._methods)
@@ -300,10 +367,15 @@ def _replay_unary(a: dict) -> str | None:
     if not a.get("shm_present", True) or not a.get("is_pointer", True):
         return None
     infos = _real_infos()
-    info = infos["void"] if not a["has_return"] else (infos["maybe"] if a["optional"] else infos["plain"])
+    # value_raises on real code: an Enum-typed result whose wire value names no member (KeyError in _deserialize_value)
+    bad_value = bool(a.get("value_raises")) and a["has_return"] and not a["value_none"]
+    if bad_value:
+        info = infos["maybe_colour"] if a["optional"] else infos["colour"]
+    else:
+        info = infos["void"] if not a["has_return"] else (infos["maybe"] if a["optional"] else infos["plain"])
     col = "result" if a.get("has_col", True) else "other"
-    schema = pa.schema([pa.field(col, pa.int64())])
-    data = pa.RecordBatch.from_pydict({col: [None if a["value_none"] else 7]}, schema=schema)
+    schema = pa.schema([pa.field(col, pa.string() if bad_value else pa.int64())])
+    data = pa.RecordBatch.from_pydict({col: [None if a["value_none"] else ("NO_SUCH_MEMBER" if bad_value else 7)]}, schema=schema)
     seg = shm_mod.ShmSegment.create(shm_mod.HEADER_SIZE + 262144)
     try:
         res = seg.allocate_and_write(data)
@@ -315,20 +387,23 @@ def _replay_unary(a: dict) -> str | None:
             items.append((empty_batch(schema), {md.LOG_LEVEL_KEY: _LVL_EXC if exc else _LVL_INFO, md.LOG_MESSAGE_KEY: b"m"}))
         items.append((ptr, dict(ptr_md.items())))
         raw = _stream_bytes(schema, items)
-        reader = ValidatedReader(ipc.open_stream(BytesIO(raw)), IpcValidation.NONE)
+        reader: object = ValidatedReader(ipc.open_stream(BytesIO(raw)), IpcValidation.NONE)
+        if a.get("fail_at", 0) > 0:
+            reader = _FailingReader(reader, a["fail_at"])
+        # spy (not a stub): did the receiver read the region, i.e. did it consume what the peer allocated?
+        spy = _SpySeg(seg)
+        consumed = spy.consumed
         outcome = "returned"
         try:
-            wire._read_unary_response(reader, info, None, shm=seg)
+            wire._read_unary_response(reader, info, None, shm=spy)  # type: ignore[arg-type]
         except Exception as e:  # noqa: BLE001
             outcome = f"raised {type(e).__name__}"
             if isinstance(e, ValueError) and "No allocation at offset" in str(e):
                 return f"_read_unary_response freed the response region at offset {res[0]} twice (second free: {e})"
-        reached = not (a["exc_log"] and a["n_logs"] > 0)
         live = seg.allocator.num_allocs
-        if reached and live != 0:
-            return f"_read_unary_response {outcome}; the response region at offset {res[0]} is still allocated ({live} live allocations): leaked"
-        if not reached and live != 1:
-            return f"_read_unary_response {outcome} on an EXCEPTION log before the data batch but {1 - live} region(s) were freed"
+        if consumed and live != 0:
+            return f"_read_unary_response {outcome}; the response region at offset {res[0]} was read by the receiver and is still allocated ({live} live allocations): leaked"
+        # not consumed (an EXCEPTION log or a failing read came first): freeing it or not is both fine
         return None
     finally:
         seg.close()
@@ -355,7 +430,12 @@ def _replay_request(a: dict) -> str | None:
         raw = _stream_bytes(schema, [(ptr, cm)])
         outcome = "returned"
         try:
-            wire._read_request(BytesIO(raw), shm=seg)
+            if a.get("owned"):
+                # the dynamic path: the server attaches the client-owned segment for this one request
+                # (a second real mapping of the same POSIX segment); the creator's view judges the leak
+                wire._read_request(BytesIO(raw), attach_shm=lambda _m: shm_mod.ShmSegment.attach(seg.name, seg.size, track=False))
+            else:
+                wire._read_request(BytesIO(raw), shm=seg)
         except RpcError:
             outcome = "raised RpcError"
         except Exception as e:  # noqa: BLE001
@@ -409,6 +489,13 @@ def _replay_stream_handle(a: dict) -> str | None:
 
 
 def _replay_resolve_failure(a: dict) -> str | None:
+    if a.get("decode_ok"):
+        via = a.get("via", 0)
+        if via == 1:
+            return _replay_request({})
+        if via == 2:
+            return _replay_unary(dict(has_return=True, optional=False, value_none=False, n_logs=0, exc_log=False))
+        return _replay_stream_handle(a)
     schema = pa.schema([pa.field("x", pa.int64())])
     seg = shm_mod.ShmSegment.create(shm_mod.HEADER_SIZE + 262144)
     try:
@@ -416,14 +503,41 @@ def _replay_resolve_failure(a: dict) -> str | None:
         assert off is not None
         seg.buf[off : off + 512] = b"\x07" * 512
         ptr, ptr_md = shm_mod.make_shm_pointer_batch(schema, off, 512)
+        # judged where a receiver's call ENDS (whichever layer does the freeing): the three receiving
+        # entry points, each reading a pointer batch whose region does not decode
+        from io import BytesIO
+
+        from pyarrow import ipc as _ipc
+
+        from vgi_rpc.utils import IpcValidation, ValidatedReader
+
+        via = a.get("via", 0)
+        cm = dict(ptr_md.items())
+        if via == 1:
+            cm[md.RPC_METHOD_KEY] = b"m"
+            cm[md.REQUEST_VERSION_KEY] = md.REQUEST_VERSION
+        raw = _stream_bytes(schema, [(ptr, cm)])
+        spy = _SpySeg(seg)
+        who = ("_read_batch_with_log_check", "_read_request", "_read_unary_response")[via]
         try:
-            _b, _m, fn = shm_mod.resolve_shm_batch(ptr, ptr_md, seg)
+            if via == 1:
+                wire._read_request(BytesIO(raw), shm=spy)  # type: ignore[arg-type]
+            elif via == 2:
+                rd = ValidatedReader(_ipc.open_stream(BytesIO(raw)), IpcValidation.NONE)
+                wire._read_unary_response(rd, _real_infos()["plain"], None, shm=spy)  # type: ignore[arg-type]
+            else:
+                rd = ValidatedReader(_ipc.open_stream(BytesIO(raw)), IpcValidation.NONE)
+                ab = wire._read_batch_with_log_check(rd, None, shm=spy)  # type: ignore[arg-type]
+                ab.release()
         except Exception as e:  # noqa: BLE001
             live = seg.allocator.num_allocs
-            if live != 0:
-                return f"resolve_shm_batch raised {type(e).__name__} and returned no release handle; the region at offset {off} stays allocated ({live} live): nobody can free it any more"
+            if spy.consumed and live != 0:
+                return (
+                    f"{who} raised {type(e).__name__} after reading the undecodable region at offset {off}; no release handle reached the caller "
+                    f"and the region stays allocated ({live} live): nobody can free it any more"
+                )
             return None
-        return None if fn is not None else "resolved without a release handle"
+        return None if seg.allocator.num_allocs == 0 else f"{who} returned on an undecodable region and left it allocated"
     finally:
         seg.close()
         seg.unlink()
@@ -463,7 +577,7 @@ def unary_response_releases_once(n_logs: int, exc_log: bool, is_pointer: bool, s
         raise
     except Exception:  # noqa: BLE001
         pass  # any exit: the accounting below must hold
-    return _accounting(off)
+    return _accounting(off, is_pointer and shm_present)
 
 
 @cond(q=60, t=240, stubs=_STUBS, encoded=[wire._read_request, shm_mod.resolve_shm_batch], replay=_replay_request,
@@ -498,8 +612,10 @@ def request_releases_once(off: int, length: int, resolved_rows: int, ncols: int,
     if not owned:
         return not closes  # the transport's segment is not ours to close
     frees = [i for i, e in enumerate(_EV) if e[0] == "free"]
-    # a segment attached for this request is detached exactly once, after its region was released
-    return len(closes) == 1 and (not frees or closes[0] > frees[0])
+    # a segment attached for this request must not be detached before its region was released (a free
+    # through a closed mapping cannot reach the header: the region would stay allocated for the peer).
+    # Whether / how often the attachment itself is closed is resource hygiene outside this property.
+    return not closes or not frees or closes[0] > frees[0]
 
 
 @cond(q=60, t=240, stubs=_STUBS, encoded=[wire._read_batch_with_log_check, shm_mod.resolve_shm_batch, types_mod.AnnotatedBatch.release], replay=_replay_stream_handle,
@@ -538,29 +654,57 @@ def stream_batch_release_handle(n_logs: int, is_pointer: bool, shm_present: bool
     return frees == ([("free", off)] if from_shm else [])
 
 
-@cond(q=30, t=120, stubs=_STUBS, encoded=[shm_mod.resolve_shm_batch], replay=_replay_resolve_failure,
-      bound="pointer batch, offset/length any ints, region decode ok | raises",
+def _handed_back(off: int) -> bool:
+    """The call (or the release handle) is over: a region the receiver READ has been freed exactly once, with
+    its own offset; a region it never read may or may not have been handed back (at most once)."""
+    frees = [e for e in _EV if e[0] == "free"]
+    if not any(e[0] == "read" for e in _EV):
+        return len(frees) <= 1 and all(f[1] == off for f in frees)
+    return frees == [("free", off)]
+
+
+@cond(q=45, t=120, stubs=_STUBS, encoded=[shm_mod.resolve_shm_batch, wire._read_batch_with_log_check, wire._read_request, wire._read_unary_response], replay=_replay_resolve_failure,
+      bound="pointer batch read through one of the three receiving entry points (stream batch | request | unary response), offset/length any ints, region decode ok | raises",
       signature=lambda args, conc: "C29:resolve-failure:region-leaked")
-def resolve_failure_releases_region(off: int, length: int, decode_ok: bool) -> bool:
+def resolve_failure_releases_region(off: int, length: int, decode_ok: bool, via: int) -> bool:
     """
+    pre: 0 <= via <= 2
     post: _
     """
+    # Judged where the receiver's call ends, not inside resolve_shm_batch: which layer frees a region
+    # that was read but cannot be decoded is the implementation's choice.
     _reset()
     _H["decode_ok"] = decode_ok
     _H["resolved_rows"] = 1
     seg = _Seg()
-    fn = None
+    if via == 1:
+        m = _MD([(md.RPC_METHOD_KEY, b"m"), (md.REQUEST_VERSION_KEY, md.REQUEST_VERSION), (md.SHM_OFFSET_KEY, _Num(off)), (md.SHM_LENGTH_KEY, _Num(length))])
+        try:
+            _read_request(_Reader([(_Batch(["a"], 0), m)], 0), shm=seg)
+        except HarnessModelError:
+            raise
+        except Exception:  # noqa: BLE001
+            pass
+        return _handed_back(off)
+    if via == 2:
+        try:
+            _read_unary(_Reader([(_Batch(["result"], 0), _ptr_md(off, length))], 0), _Info(True, False), None, shm=seg)
+        except HarnessModelError:
+            raise
+        except Exception:  # noqa: BLE001
+            pass
+        return _handed_back(off)
     try:
-        _b, _m, fn = _resolve(_Batch(["x"], 0), _ptr_md(off, length), seg)
+        ab = _read_batch(_Reader([(_Batch(["x"], 0), _ptr_md(off, length))], 0), None, shm=seg)
     except HarnessModelError:
         raise
     except Exception:  # noqa: BLE001
-        # the receiver is done with the region and no handle escaped: it must have been freed here
-        return [e for e in _EV if e[0] == "free"] == [("free", off)]
-    if fn is None or any(e[0] == "free" for e in _EV):
-        return False
-    fn()
-    return [e for e in _EV if e[0] == "free"] == [("free", off)]
+        # the receiver read the region and no handle reached the caller: it must have been handed back
+        return _handed_back(off)
+    if any(e[0] == "free" for e in _EV):
+        return False  # freed while the batch is still held unreleased
+    ab.release()
+    return _handed_back(off)
 
 
 # ---------------------------------------------------------------------------
@@ -728,6 +872,25 @@ def _s_terminating(t: int, mask: int, script: tuple) -> int:
     return t
 
 
+class _LoggingSeg:
+    """The REAL segment behind a transparent proxy that logs read_buffer / free into _EV (with the output length at
+    that moment), so the replay can judge WHEN the un-stubbed server released a region."""
+
+    def __init__(self, seg: object) -> None:
+        self._seg = seg
+
+    def read_buffer(self, offset: int, length: int) -> object:
+        _EV.append(("read", offset))
+        return self._seg.read_buffer(offset, length)  # type: ignore[attr-defined]
+
+    def free(self, offset: int) -> None:
+        _EV.append(("free", offset, len(_H["tr"].writer.getvalue())))
+        self._seg.free(offset)  # type: ignore[attr-defined]
+
+    def __getattr__(self, name: str) -> object:
+        return getattr(self._seg, name)
+
+
 def _replay_serve_stream(a: dict) -> str | None:
     """Un-stubbed RpcServer._serve_stream, real pyarrow, real POSIX segment holding real regions."""
     t, mask, cancel = a["t"], a["mask"], a["cancel"]
@@ -754,13 +917,21 @@ def _replay_serve_stream(a: dict) -> str | None:
                 offsets.append(res)
         tr = _STransport(_s_request(t, mask, cancel, tuple(offsets)))
         _H.clear()
+        _EV.clear()
         _H.update(script=script, i=0, tr=tr)
+        raised = None
         try:
-            _S_SERVER._serve_stream(tr, _S_SERVER._methods["exch"], {}, shm=seg)
+            _S_SERVER._serve_stream(tr, _S_SERVER._methods["exch"], {}, shm=_LoggingSeg(seg))  # type: ignore[arg-type]
         except Exception as e:  # noqa: BLE001
-            return f"_serve_stream raised {type(e).__name__}: {e}"
+            raised = e  # not this property by itself; the regions the server read still have to come back
+        # (1) timing/exactly-once, judged on the events the REAL server produced on the REAL segment
+        idx = {offsets[i][0]: i for i in range(_NS) if (mask >> i) & 1 and i < t}
+        why_ev = _stream_events_problem(len(tr.writer.getvalue()), lambda off: idx.get(off, -1), raised is not None)
+        if why_ev and "still allocated" not in why_ev:
+            return f"un-stubbed _serve_stream over a real segment: {why_ev}" + (f" (the call raised {type(raised).__name__})" if raised else "")
+        # (2) leaks, judged on the real allocation table
         last = _s_terminating(t, mask, script)
-        consumed = [offsets[i][0] for i in range(min(last + 1, t)) if (mask >> i) & 1]
+        consumed = [e[1] for e in _EV if e[0] == "read"]  # what the real server actually read
         live = [o for o, _ln in seg.allocator._read_allocs()]
         leaked = [o for o in consumed if o in live]
         if leaked:
@@ -878,34 +1049,44 @@ def _serve_stream_accounting(t: int, mask: int, cancel: bool, script: tuple) -> 
     _H.clear()
     tr = _STransport(_s_pick_request(t, mask, cancel))
     _H.update(script=script, i=0, tr=tr)
+    raised = False
     try:
         _s_serve_stream(_S_SERVER, tr, _S_SERVER._methods["exch"], {}, shm=_SSeg())
     except HarnessModelError:
         raise
     except Exception:  # noqa: BLE001
-        return False
-    final_len = len(tr.writer.getvalue())
+        raised = True  # whatever made the loop raise is not this property; the regions it read still are
+    return _stream_events_problem(len(tr.writer.getvalue()), lambda off: (off - shm_mod.HEADER_SIZE) // 1024, raised) is None
+
+
+def _stream_events_problem(final_len: int, index_of, raised: bool) -> str | None:  # type: ignore[no-untyped-def]
+    """Judge the event log (_EV: read / free(off, output length then) / proc_start / proc_end) of ONE stream call.
+
+    The same judgement is applied to the model run and, in the replay, to the events observed on the
+    un-stubbed server over a real segment (a logging proxy in front of it)."""
+    eos = len(shm_mod._IPC_EOS)
     reads = [e[1] for e in _EV if e[0] == "read"]
     frees = [e for e in _EV if e[0] == "free"]
     # every region the server read is freed exactly once, nothing else is freed
     if sorted(f[1] for f in frees) != sorted(reads) or len(set(reads)) != len(reads):
-        return False
+        left = [o for o in reads if o not in [f[1] for f in frees]]
+        return f"regions read {reads}, regions freed {[f[1] for f in frees]}" + (f": {left} still allocated after the stream call ended" if left else "")
     for f in frees:
         fi = _EV.index(f)
         if fi < _EV.index(("read", f[1])):
-            return False
-        # ... before the output stream's EOS marker (8 bytes) is written: EOS tells the client every region is back
-        if f[2] > final_len - 8:
-            return False
+            return f"region {f[1]} freed before it was read"
+        # ... before the output stream's EOS marker is written: EOS tells the client every region is back
+        if not raised and f[2] > final_len - eos:
+            return f"region {f[1]} freed only after the output EOS was written (output length at the free {f[2]}, final {final_len})"
         # ... and not while process() on that input is still running
-        i = (f[1] - shm_mod.HEADER_SIZE) // 1024
+        i = index_of(f[1])
         if ("proc_start", i) in _EV and fi < _EV.index(("proc_end", i)):
-            return False
+            return f"region {f[1]} of input {i} freed while process() on that input was still running"
         # ... and not before the output produced from that input has been written: the collector may
         # hold zero-copy views of the input, and a freed region is what first-fit hands the output
         if i in _H.get("emitted", ()) and f[2] <= _H["out_len_at_end_%d" % i]:
-            return False
-    return True
+            return f"region {f[1]} of input {i} freed before the output emitted from it was written"
+    return None
 
 
 @cond(q=90, t=300, stubs=_S_STUBS, encoded=[srv.RpcServer._serve_stream, shm_mod.resolve_shm_batch, types_mod.AnnotatedBatch.release],
